@@ -380,7 +380,13 @@ class Template:
                             self, data, filename, path, self.module_writer
                         )
                 module = compat.load_module(self.module_id, path)
-                if module._magic_number != codegen.MAGIC_NUMBER:
+                if (
+                    module._magic_number != codegen.MAGIC_NUMBER
+                    # generated before the source was last modified, though
+                    # the module file itself was written within the same
+                    # second or later
+                    or module._modified_time < filemtime
+                ):
                     data = util.read_file(filename)
                     with _drop_expression_warnings():
                         _compile_module_file(
